@@ -382,3 +382,18 @@ Theorem C04g_fmt_total :
        exists out : list N, M_BasePartition_fmt p f = Some (f ++ out, Ok tt).
 Proof. exact g_fmt_total. Qed.
 Print Assumptions C04g_fmt_total.
+
+Theorem C04g_fp_fmt :
+  forall (p : Partition) (f : list N),
+       M_Partition_fmt p f = M_BasePartition_fmt (Partition_base p) f.
+Proof. exact g_fp_fmt. Qed.
+Print Assumptions C04g_fp_fmt.
+
+Theorem C04g_fp_fmt_total :
+  forall (n : nat) (p : Partition) (f : list N),
+       bp_wf n (convbp (Partition_base p)) ->
+       N.of_nat n < 4294967296 ->
+       N.of_nat (length (BasePartition_block (Partition_base p))) < 4294967296 ->
+       exists out : list N, M_Partition_fmt p f = Some (f ++ out, Ok tt).
+Proof. exact g_fp_fmt_total. Qed.
+Print Assumptions C04g_fp_fmt_total.
